@@ -660,6 +660,19 @@ class Inliner:
                         out = out[:len(out) - len(body)]
                         out.append(return_none)
                     continue
+            # a statement helper used as a direct ARGUMENT of the statement's call (`lst.append(helper(..))`): its statements
+            # are hoisted in front when everything evaluated before it is side-effect free
+            top = s.value if isinstance(s, (ast.Expr, ast.Assign, ast.Return, ast.AugAssign, ast.AnnAssign)) and isinstance(getattr(s, "value", None), ast.Call) else None
+            if top is not None and self.depth > 0 and _simple_arg(top.func):
+                for i, a in enumerate(top.args):
+                    if isinstance(a, ast.Call):
+                        r = self.stmt_form(a)
+                        if r is not None and r[1] is not None and all(_simple_arg(x) for x in top.args[:i]):
+                            out.extend(r[0])
+                            top.args[i] = r[1]
+                        break
+                    if not _simple_arg(a):
+                        break
             for fld in ("body", "orelse", "finalbody"):
                 if hasattr(s, fld) and isinstance(getattr(s, fld), list) and not isinstance(s, (ast.FunctionDef, ast.ClassDef)):
                     setattr(s, fld, self.block(getattr(s, fld)))
@@ -847,7 +860,7 @@ def gen_format_bits(repo):
 ALIASES = {
     "creation_date.timetuple().tm_yday": "creation_yday", "creation_date.year": "creation_year",
     "creation_day_of_year": "creation_yday", "len(_vlrs)": "number_of_vlrs", "point_format.size": "point_size",
-    "int(0)": "zero", "LAS_FILE_SIGNATURE": "signature", "file_sig": "signature", "uuid.bytes_le": "uuid",
+    "int(0)": "zero", "0": "zero", "(0)": "zero", "LAS_FILE_SIGNATURE": "signature", "file_sig": "signature", "uuid.bytes_le": "uuid",
     "vlr_bytes": "vlrs", "_vlrs": "vlrs", "start_of_waveform_data_packet_record": "start_of_waveform",
 }
 
@@ -1225,6 +1238,10 @@ def gen_header_layout(repo):
                     elif f in ("write_string", "write_as_c_string"):
                         fields.append(("KStr" if f == "write_string" else "KCStr", const_int(c.args[2], vc, flags),
                                        ast.unparse(c.args[1]).replace("vlr.", "")))
+                    elif has_stream_io(c, "write"):
+                        raise Untranslatable(f"VLR write through an unknown call: {ast.unparse(c)[:60]}")
+            if len(fields) < 4:
+                raise Untranslatable("VLRList.write_to: fewer than 4 fields recognised")
             return f"Definition vlr_write_layout_{'ext' if ext else 'std'} : layout := " + coq_layout(fields) + ".\n"
         return t
     o.add("vlr_write_layout_std", vlr_w(False))
@@ -1245,6 +1262,8 @@ def gen_header_layout(repo):
                     return
                 rd = [n for n in ast.walk(s) if isinstance(n, ast.Call) and ast.unparse(n.func) in ("data_stream.read", "read_string")]
                 if not rd:
+                    if any(isinstance(n, ast.Name) and n.id in ("data_stream", "stream") for n in ast.walk(s)):
+                        raise Untranslatable(f"VLR read through an unknown call: {ast.unparse(s)[:60]}")
                     return
                 if len(rd) != 1:
                     raise Untranslatable("several reads")
@@ -1274,6 +1293,8 @@ def gen_header_layout(repo):
                         one(x)
                 else:
                     one(s)
+            if len(fields) < 4:
+                raise Untranslatable("VLRList.read_from: fewer than 4 fields recognised")
             return f"Definition vlr_read_layout_{'ext' if ext else 'std'} : layout := " + coq_layout(fields) + ".\n"
         return t
     o.add("vlr_read_layout_std", vlr_r(False))
